@@ -6,19 +6,19 @@ ASMTECH = "TLC model checking (AsmRef / AsmSizing / M6809 gates) + TLC-exported 
 CLAIMED = {
  "C01": ("spec/M6809.tla codec (two datasheet transcriptions, inverse + round trip checked by TLC), spec/AsmRef.tla reference assembler model-checked against the certificate of spec/Asm.tla; TLC enumerates every mnemonic x operand form x boundary value x spelling, each is assembled by the real code and the recorded bytes/addresses are judged by TLC (bytes in Asm!Acceptable, decodes as one instruction of that mnemonic)",
          ASMTECH, "7 C01"),
- "C03": ("spec/AsmSizing.tla models the 8/16-bit sizing loop as a step function; TLC checks WidthSafe / NoLivelock / termination on all programs of <=3 (thorough <=4) items; every explored program is replayed and the hook events of the real loop are validated step by step against AsmSizing!Step; distance sweeps of all branch mnemonics and label,PCR forms are judged by the certificate (displacement reaches target, field wide enough, out-of-range short branch rejected)",
+ "C03": ("spec/AsmSizing.tla models the 8/16-bit sizing loop as a step function; TLC checks WidthSafe / NoLivelock / termination on all programs of <=3 (thorough <=4) items; every explored program is replayed and the hook events of the real loop are validated step by step against AsmSizing!Step; distance sweeps of all branch mnemonics and label,PCR forms are judged by the certificate (displacement reaches target, field wide enough, out-of-range short branch rejected); branches and label,PCR operands across a second ORG (recorded finding) ",
          ASMTECH + "; stateful trace validation of sizing-loop hook events (Tr_Sizing)", "7 C03"),
  "C12": ("M6809!Decode is a total decoder checked against the encoder by TLC; TLC enumerates the ill-typed forms (wrong mode / register / too-wide value) for every mnemonic row, which must be rejected; single-edit mutations and random operand strings are assembled and whatever is accepted is judged by TLC: decodes as exactly one instruction of that mnemonic, consuming all bytes, byte count = reserved space",
          ASMTECH, "7 C12"),
  "C02": ("spec/AsmRef.tla states LayoutInv directly (addresses advance by the bytes emitted, labels name their statement's address) and TLC checks it together with CertOK on all programs of the bounded model; those programs, one labelled frame per opcode-table cell and seeded random programs of 3-200 statements (ORG placements, EQUs, duplicate/undefined labels) are assembled and TLC judges every recorded listing/image/symbol table/origin; spec/AsmPasses.tla gives one step predicate per pass of translate_statements (collect, translate, size, lay, fix, backpatch), MC_AsmPasses checks that they are satisfiable, tight and together imply the end-to-end statement, and Tr_Passes validates the pass-boundary hook events of random programs against them",
          ASMTECH, "7 C02"),
- "C04": ("Asm!Eval is the 16-bit expression semantics (limb multiplication, truncating division, division by zero, overflow latitude); TLC enumerates operand position x {number, EQU before/after, label before/after} op {same} for + - * / in a fixed frame at two origins; each program is assembled and TLC checks that the encoded value equals Eval under the environment the listing itself claims, and the symbol-table values",
+ "C04": ("Asm!Eval is the 16-bit expression semantics (limb multiplication, truncating division, division by zero, overflow latitude); TLC enumerates operand position x {number, EQU before/after, label before/after} op {same} for + - * / in a fixed frame at two origins; each program is assembled and TLC checks that the encoded value equals Eval under the environment the listing itself claims, and the symbol-table values; a label whose address sits on every width boundary in every fixed-width operand position, and one label referenced through fields of different width in one program",
          ASMTECH, "7 C04"),
- "C05": ("Asm!AcceptableData: FCB/FDB/FCC/RMB byte strings, range rules, non-emitting directives; TLC enumerates list shapes x value classes x spellings and FCC strings from the string-class lattice x delimiters; assembled in labelled frames and judged by TLC",
+ "C05": ("Asm!AcceptableData: FCB/FDB/FCC/RMB byte strings, range rules, non-emitting directives; TLC enumerates list shapes x value classes x spellings and FCC strings from the string-class lattice x delimiters; assembled in labelled frames and judged by TLC; also tabs / control characters / characters above $7E inside strings, text glued to the closing delimiter, and the same list text under FCB and FDB in one program",
          ASMTECH, "7 C05"),
- "C13": ("termination of the data-dependent sizing loop is a liveness property of spec/AsmSizing.tla checked by TLC (plus bounded-progress invariant); the explored programs, PCR distance sweeps, random valid programs, single-line mutations and random lines are run under a watchdog and TLC judges the outcome clause (ok | parse | translation, diagnostic names a statement); CLI sample as subprocesses: diagnostic => exit != 0, no output file",
+ "C13": ("termination of the data-dependent sizing loop is a liveness property of spec/AsmSizing.tla checked by TLC (plus bounded-progress invariant); the explored programs, PCR distance sweeps, random valid programs, single-line mutations and random lines are run under a watchdog and TLC judges the outcome clause (ok | parse | translation, diagnostic names a statement); CLI sample as subprocesses: diagnostic => exit != 0, no output file; very long tokens (a rejecting pattern must not backtrack exponentially), degenerate sources (empty file, comment only, INCLUDE of an empty file) through the CLI, branches across a second ORG with more than 64K in between, and a success must leave the image it was asked for",
          ASMTECH + "; CLI exit-status / output-file observation", "7 C13"),
- "C06": ("spec/Tape.tla: the tape writer as a block-by-block state machine and a CLOAD-like checksum-verifying scanner; TLC checks at every block boundary that the stream written so far scans to exactly the files written (BLK=3, marker-byte alphabet, all layouts); tool-written tapes (boundary lengths, marker contents, all address/type variants) are scanned by the spec and the tool's own listing compared; spec-written streams with arbitrary leaders/gaps are listed by the tool",
+ "C06": ("spec/Tape.tla: the tape writer as a block-by-block state machine and a CLOAD-like checksum-verifying scanner; TLC checks at every block boundary that the stream written so far scans to exactly the files written (BLK=3, marker-byte alphabet, all layouts); tool-written tapes (boundary lengths, marker contents, all address/type variants) are scanned by the spec and the tool's own listing compared; spec-written streams with arbitrary leaders/gaps are listed by the tool; every third tool-written tape goes through the host layer (VirtualFile), lists hold several files of one name and files carrying the gap flag $FF",
          "TLC model checking of Tape writer/scanner + TLC-written streams replayed into the tool's reader + TLC validation of tool-written tapes", "7 C06"),
  "C14": ("same runs as C06, structural clauses: the spec's scanner (sync, type, length, payload, checksum, trailer, block order, <=255-byte payloads, 15-byte name block) must accept every tape the tool writes, recover exactly the files, and count 2 + ceil(len/255) blocks per file; chunking law checked by TLC for all 65536 lengths",
          "TLC model checking of Tape writer/scanner + exhaustive chunking law + TLC validation of tool-written tapes", "7 C14"),
@@ -26,7 +26,7 @@ CLAIMED = {
          "TLC model checking of the Disk allocation machine (real and small geometry, exhaustion runs, exhaustive length bookkeeping) + TLC-exported add-sequences replayed into DiskFile + TLC validation of per-add image deltas (Tr_Disk)", "7 C07/C08/C15"),
  "C08": ("after every add TLC evaluates the Disk BASIC consistency clauses on the image delta: one new directory slot, chain within 0..67 without revisits ending in a marker with 0..9 sectors, chains disjoint / nothing of the old files touched, implied length = stream length, stream in chain order = header/data/trailer, directory fields, no byte changed outside the allocated granules, FAT and directory sectors, image size 161,280",
          "TLC model checking of the Disk allocation machine (real and small geometry, exhaustion runs, exhaustive length bookkeeping) + TLC-exported add-sequences replayed into DiskFile + TLC validation of per-add image deltas (Tr_Disk)", "7 C07/C08/C15"),
- "C15": ("Disk.tla states enabledness of AddFile exactly (granules needed vs free, slot free) and TLC checks Capacity / FitsIfRoom / exhaustion runs (72 slots, 68 granules); replayed sequences must succeed when the machine says they must fit and fail when they cannot, using the minimum number of granules (or one more at exact multiples), all previously free, and one slot",
+ "C15": ("Disk.tla states enabledness of AddFile exactly (granules needed vs free, slot free) and TLC checks Capacity / FitsIfRoom / exhaustion runs (72 slots, 68 granules); replayed sequences must succeed when the machine says they must fit and fail when they cannot, using the minimum number of granules (or one more at exact multiples), all previously free, and one slot; at host level: several large files in one command that do not all fit (all stored or the host file left as it was), commands that also write other outputs, exactly one directory entry per stored file",
          "TLC model checking of the Disk allocation machine (real and small geometry, exhaustion runs, exhaustive length bookkeeping) + TLC-exported add-sequences replayed into DiskFile + TLC validation of per-add image deltas (Tr_Disk)", "7 C07/C08/C15"),
  "C09": ("spec/Host.tla AppendPreserves / AppendHappens / NeverLost checked by TLC on all command histories of depth 2 (thorough 3); replayed through the CLIs and, for boundary-length files up to a full medium and tapes past 161,280 bytes, through VirtualFile open/add/save on real temp files; after every step the host bytes are read by the specification's readers (every earlier file, in order, then the new one) and the hook events (exists, sniffed kind, wrote) are validated; file_util --list is a read-only action of the machine whose output must name exactly the files the abstract content holds (tool reader vs spec reader after every history prefix)",
          "TLC model checking of the Host command machine (table vs separately phrased properties, all histories of bounded depth) + TLC-exported command histories replayed through both CLIs + TLC validation of every step: contents read by the spec's tape / disk readers, VirtualFile hook events", "7 C09"),
@@ -34,13 +34,13 @@ CLAIMED = {
          "TLC model checking of the Host command machine (table vs separately phrased properties, all histories of bounded depth) + TLC-exported command histories replayed through both CLIs + TLC validation of every step: contents read by the spec's tape / disk readers, VirtualFile hook events", "7 C10"),
  "C11": ("TLC enumerates the configuration space (name source x name shape x switches alone/combined x origin x image size x END operand); assembler.py is run on each, the .bin is compared with the API image and the .cas/.dsk are read by Tape!ParseTape / DiskBytes!ReadAll: one ML file, data = image, load = origin, entry, name rule, nothing created without a name; file_util --list must agree",
          "TLC-enumerated configurations replayed through assembler.py + TLC validation of the saved files with the spec's tape / disk readers (Tr_C11)", "7 C11"),
- "C16": ("conversions through file_util.py (tape<->disk<->binary, every kind of --files selection and spelling, and back) judged step by step with Host!Allowed: the target, read by the spec's readers, holds exactly the selected catalogue files in source order",
+ "C16": ("conversions through file_util.py (tape<->disk<->binary, every kind of --files selection and spelling, and back) judged step by step with Host!Allowed: the target, read by the spec's readers, holds exactly the selected catalogue files in source order; source images also written by the specification (tapes recorded with gaps, disks with killed directory entries and scattered chains), several files of one name with and without --files, files of many granules",
          "TLC model checking of the Host command machine (table vs separately phrased properties, all histories of bounded depth) + TLC-exported command histories replayed through both CLIs + TLC validation of every step: contents read by the spec's tape / disk readers, VirtualFile hook events", "7 C16"),
  "C17": ("spec/Session.tla memo machine: out = memo[src] whenever src was seen; TLC enumerates every order of <= 4 assemblies over a pool of 8 sources; the reference output of a source is its assembly alone in a fresh interpreter, each history is run warm and in fresh processes under several hash seeds, and one earlier program out of thousands (ill-typed, mutated, random) is followed by six probe programs in the same interpreter; every event carries the full output, Tr_Session folds the memo machine over all of them",
          "TLC-exported histories replayed in warm and fresh interpreters + TLC validation with the memo machine (Tr_Session)", "7 C17"),
  "C18": ("Session!Relocated / Renamed / SameOutput / PrefixStable as operators over two recorded outputs; random accepted programs x {origin shift, label bijection, white space, comments, mnemonic case, suffix}; both assemblies are one pair trace judged by TLC; the reference assembler AsmRef is model-checked so the relations are known satisfiable",
          "TLC trace validation of pair traces (Tr_Pair) + TLC model checking of AsmRef", "7 C18"),
- "C19": ("spec/Include.tla: INCLUDE expansion as a stack machine, TLC checks it equals the recursive splice and rejects exactly cycles / missing files (with termination) on all 3-file configurations; random programs split into include trees (depth 3, every boundary), missing files and cycles are materialised in a temp dir and assembled versus the spliced file; Tr_Pair judges IncludeEquiv",
+ "C19": ("spec/Include.tla: INCLUDE expansion as a stack machine, TLC checks it equals the recursive splice and rejects exactly cycles / missing files (with termination) on all 3-file configurations; random programs split into include trees (depth 3, every boundary), missing files and cycles are materialised in a temp dir and assembled versus the spliced file; Tr_Pair judges IncludeEquiv; include names spelled with ./ ../ a dot-file and an absolute path (decoys under the stripped names), and the same label-free file included several times",
          "TLC model checking of the Include machine + include trees replayed on disk + TLC validation of (including, spliced) pair traces", "7 C19"),
 }
 NOT_YET = {}
